@@ -20,8 +20,12 @@ func TestVxRace(t *testing.T) {
 	if err != nil {
 		t.Fatal(err)
 	}
+	ref, in0 := vxC09Case(name)
+	want := ref.Match(in0) // sequential result on a separately built, identical classifier
+	if _, err := vxLoadReplay(path); err != nil {
+		t.Fatal(err)
+	}
 	c, in := vxC09Case(name)
-	want := c.Match(in)
 	var wg sync.WaitGroup
 	for g := 0; g < 8; g++ {
 		wg.Add(1)
